@@ -76,8 +76,10 @@ def run_tasks(tasks):
 
 def drv_random_hpc(seed, gen_kw):
     rng = random.Random(seed)
+    gen_kw = dict(gen_kw)
+    eager = gen_kw.pop("eager", 0.0)
     scn = scenario.gen(rng, **gen_kw)
-    tr = run.run_hpc(scn, seed)
+    tr = run.run_hpc(scn, seed, eager=eager if seed % 2 else 0.0)
     tr["driver"] = ["random_hpc", seed, gen_kw]
     return tr
 
@@ -158,7 +160,32 @@ def drv_cluster(plan, seed, path, elog):
     return tr
 
 
-DRIVERS = {"cluster": drv_cluster, "results": drv_results, "random_hpc": drv_random_hpc, "scn": drv_scn, "model_replay": drv_model_replay,
+def drv_fault(scn, seed, plan, fault_mode):
+    tr = run.run_fault(scn, seed, plan, fault_mode=fault_mode)
+    tr["driver"] = ["fault", scn, seed, plan, fault_mode]
+    return tr
+
+
+def drv_random_nodefaults(seed, gen_kw):
+    """Random scenario with failed sbatch calls for a random subset of batches and a node killed at a random point."""
+    rng = random.Random(seed)
+    scn = scenario.gen(rng, **gen_kw)
+    scn["nodefaults"] = True
+    nb = rng.randint(0, 2)
+    scn["sbatch_fail"] = {str(b): 7 for b in rng.sample(range(1, 6), nb)}
+    eager = 0.05 if seed % 2 else 0.0        # in half of the runs the user also runs try-submit-jobs while batches are active
+    base = run.run_fault(scn, seed, None, eager=eager)
+    runners = [(pid, o) for pid, o in base["ops"].items() if o["label"] == "run-jobs"]
+    plan = None
+    if runners and rng.random() < 0.7:
+        pid, o = runners[rng.randrange(len(runners))]
+        plan = {"kind": "nodekill", "pid": pid, "k": rng.randrange(len(o["ops"]))}
+    tr = run.run_fault(scn, seed, plan, eager=eager)
+    tr["driver"] = ["fault", scn, seed, plan, False, eager]
+    return tr
+
+
+DRIVERS = {"fault": drv_fault, "random_nodefaults": drv_random_nodefaults, "cluster": drv_cluster, "results": drv_results, "random_hpc": drv_random_hpc, "scn": drv_scn, "model_replay": drv_model_replay,
            "batching_input": drv_batching_input, "dry_pair": drv_dry_pair, "first_round": drv_first_round}
 
 
@@ -392,7 +419,7 @@ def protocol_suite(ctx, n_quick=400, n_thorough=4000, gen_kw=None, salt=0):
     q = ctx.tier == "quick"
     fam = families.protocol_quick() if q else families.protocol_thorough()
     ctx.impl_model("JadeImpl protocol", fam, maxb=4 if not q else 3, maxuser=3 if q else 4, max_replay=300 if q else 2000)
-    kw = dict(n_min=2, n_max=6 if q else 9, groups_max=2)
+    kw = dict(n_min=2, n_max=6 if q else 9, groups_max=2, eager=0.04)
     kw.update(gen_kw or {})
     tasks = [("random_hpc", (s, kw)) for s in seeds(ctx, n_quick if q else n_thorough, salt)]
     ctx.judge(run_tasks(tasks), "random HPC submissions")
@@ -614,7 +641,122 @@ def check_C10(ctx):
                            "status events of whole submissions")
 
 
-CHECKS = {"C01": check_C01, "C07": check_C07, "C08": check_C08, "C10": check_C10}
+def fault_bases(tier):
+    q = tier == "quick"
+    bases = [
+        families.scn("ABCD", blk={"B": ["A"], "D": ["C"]}, flag="D", rc={"C": 1}, groups=[families.G(size=1, procs=1)], maxnodes=2),
+        families.scn("ABC", blk={"C": ["A", "B"]}, groups=[families.G(size=2, tryadd=True, procs=2)], maxnodes=1),
+    ]
+    if not q:
+        bases += [
+            families.scn("ABCDE", blk={"B": ["A"], "C": ["B"], "E": ["D"]}, flag="CE", rc={"A": 1}, groups=[families.G(size=2, tryadd=True, procs=1)], maxnodes=2),
+            families.scn("ABCD", blk={"D": ["A"]}, groups=[families.G(tb=True, tryadd=True, procs=1)], est={"A": 5, "B": 5, "C": 8, "D": 3}, maxnodes=2),
+        ]
+    return bases
+
+
+def sweep_tasks(ctx, bases, kinds, labels, fault_mode, locklibs=("never", "modern"), seeds_per_base=1, cap=None):
+    """Systematic single-fault sweep: for every base schedule, every process with one of `labels`, every step k."""
+    rng = random.Random(ctx.seed)
+    base_tasks = []
+    for bi, b in enumerate(bases):
+        for s in range(seeds_per_base):
+            for ll in locklibs:
+                scn = dict(b, locklib=ll, faults=True)
+                base_tasks.append(("fault", (scn, ctx.seed * 131 + bi * 17 + s, None, fault_mode)))
+    baselines = run_tasks(base_tasks)
+    tasks = []
+    points = 0
+    for (kind_, (scn, seed, _, fm)), btr in zip(base_tasks, baselines):
+        for pid, o in sorted(btr["ops"].items(), key=lambda x: int(x[0])):
+            if o["label"] not in labels:
+                continue
+            for k, (op, detail) in enumerate(o["ops"]):
+                for kind in kinds:
+                    if kind == "failwrite" and op != "audit":
+                        continue
+                    if kind == "faillock" and op != "lock_try":
+                        continue
+                    points += 1
+                    tasks.append(("fault", (scn, seed, {"kind": kind, "pid": int(pid), "k": k, "at": [op, detail]}, fm)))
+    if cap and len(tasks) > cap:
+        tasks = rng.sample(tasks, cap)
+    ctx.extra["fault_points_enumerated"] = ctx.extra.get("fault_points_enumerated", 0) + points
+    return baselines, tasks
+
+
+def check_C11(ctx):
+    q = ctx.tier == "quick"
+    bases = fault_bases(ctx.tier)
+    subm = ("submit-jobs", "try-submit-jobs")
+    # kills at every boundary operation (lock operation, external command) of every submitter round
+    bl1, t1 = sweep_tasks(ctx, bases, ["kill", "faillock"], subm, fault_mode=False, cap=None if not q else 700)
+    # thorough: additionally at every file mutation, and a failed write (quota) at every write
+    bl2, t2 = sweep_tasks(ctx, bases[:1] if q else bases, ["kill", "failwrite"], subm, fault_mode=True, cap=500 if q else None)
+    traces = run_tasks(t1 + t2)
+    ctx.extra["fault_runs_injected"] = sum(1 for t in traces if t.get("injected"))
+    ctx.judge(bl1 + bl2 + traces, "single-fault sweep over submitter rounds (kill / lock failure / write failure), both lock policies, "
+              "then recovery rounds")
+    # failed scheduler queries and failed sbatch calls
+    kw = dict(n_min=3, n_max=6, groups_max=1, squeue_faults=1.0)
+    ctx.judge(run_tasks([("random_hpc", (s, kw)) for s in seeds(ctx, 150 if q else 2000, 31)]), "random submissions with a failed scheduler query")
+    return ctx.finish(rule="systematic sweep: base schedules x every submitter process x every boundary operation (thorough/"
+                           "fault mode: every file mutation under the output directory) x {SIGKILL, failed lock acquisition, "
+                           "failed write (EDQUOT)} x lock-library policy {never break, break stale/malformed markers}, each "
+                           "followed by the remaining nodes' own rounds and up to 3 user try-submit-jobs; plus random "
+                           "submissions with a failed squeue query; distinct = distinct (scenario, schedule, fault point)")
+
+
+def check_C12(ctx):
+    q = ctx.tier == "quick"
+    bases = fault_bases(ctx.tier)
+    # every subset of batches failing at sbatch (base scenarios have <= 4 batches)
+    import itertools
+    tasks = []
+    for bi, b in enumerate(bases):
+        for r in range(0, 4):
+            for sub in itertools.combinations(range(1, 5), r):
+                scn = dict(b, sbatch_fail={str(x): 7 for x in sub}, nodefaults=True)
+                tasks.append(("fault", (scn, ctx.seed + bi, None, False)))
+    # node killed at every point of every runner
+    bl, t2 = sweep_tasks(ctx, bases, ["nodekill"], ("run-jobs",), fault_mode=False, locklibs=("never",), seeds_per_base=2 if q else 6)
+    # ... and at every lock operation / file mutation of a runner (fault mode), both lock-library policies
+    bl3, t3 = sweep_tasks(ctx, bases[1:2] if q else bases, ["nodekill"], ("run-jobs",), fault_mode=True, seeds_per_base=1 if q else 3)
+    bl, t2 = bl + bl3, t2 + t3
+    # a node killed at every runner operation WHILE a user's try-submit-jobs (started as soon as nobody is submitter and a
+    # batch is active) is held at its j-th operation: every pair (j, k)
+    rngx = random.Random(ctx.seed + 5)
+    cross = []
+    for bi, (b0, btr) in enumerate(zip(bases, bl[:len(bases)])):
+        scn = dict(b0, locklib="never", faults=True)
+        seed = ctx.seed * 131 + bi * 17
+        for pid, o in btr["ops"].items():
+            if o["label"] != "run-jobs":
+                continue
+            b = next(e["b"] for e in btr["ev"] if e["e"] == "proc" and e["pid"] == int(pid))
+            for k in range(len(o["ops"]) + 1):
+                for j in range(0, 10):
+                    cross.append(("fault", (scn, seed, [{"kind": "usertry", "when": "free"}, {"kind": "stall", "j": j},
+                                                         {"kind": "nodekill", "b": b, "k": k}], False)))
+    ctx.extra["cross_points_enumerated"] = len(cross)
+    if len(cross) > (600 if q else 6000):
+        cross = rngx.sample(cross, 600 if q else 6000)
+    t2 = t2 + cross
+    # dependency cycles
+    cyc = [families.scn("ABC", blk={"A": ["B"], "B": ["A"]}, groups=[families.G(size=2, tryadd=True, procs=2)], maxnodes=2),
+           families.scn("ABCD", blk={"A": ["B"], "B": ["C"], "C": ["A"], "D": ["A"]}, flag="D", groups=[families.G(size=1)], maxnodes=0)]
+    tasks += [("fault", (c, ctx.seed + i, None, False)) for i, c in enumerate(cyc) for _ in range(1)]
+    kw = dict(n_min=3, n_max=7, groups_max=2)
+    tasks += [("random_nodefaults", (s, kw)) for s in seeds(ctx, 200 if q else 3000, 41)]
+    traces = run_tasks(tasks + t2)
+    ctx.judge(bl + traces, "failed sbatch subsets, node kills at every runner operation, dependency cycles, random node faults; recovery")
+    return ctx.finish(rule="every subset (<=3) of batches failing at sbatch on the base scenarios; a node killed at every boundary "
+                           "operation of every runner (2+ schedules per base); dependency cycles; random DAGs with random failed "
+                           "sbatch calls and a node kill at a random point; each followed by the documented try-submit-jobs "
+                           "recovery and judged at results.json")
+
+
+CHECKS = {"C01": check_C01, "C07": check_C07, "C08": check_C08, "C10": check_C10, "C11": check_C11, "C12": check_C12}
 for _i, _p in enumerate(["C02", "C03", "C04", "C05", "C09"]):
     CHECKS[_p] = make_protocol_check(10 + _i)
 # C06 also under failing scheduler queries: the limit is stated for every instant, not only for fault-free runs
